@@ -31,6 +31,7 @@ def run(ctx):
     c16_1(ctx)
     c16_2(ctx)
     c16_3(ctx)
+    c16_4(ctx)
 
 
 def c16_1(ctx):
@@ -200,3 +201,32 @@ def c16_3(ctx):
     g = fb.consts.get("chia_puzzle_types::derive_synthetic::GROUP_ORDER_BYTES", {}).get("value")
     ctx.ob(R, "GROUP_ORDER_BYTES", bool(g) and int.from_bytes(bytes(g), "big") == BLS12_381_R,
            "GROUP_ORDER_BYTES is the order r of the BLS12-381 scalar field", found=bytes(g).hex() if g else None)
+
+
+def c16_4(ctx):
+    """group addition behind +, +=, -= and aggregate is the complete formula (add_or_double): adding a point to itself must double
+    it, otherwise sk + sk and pk + pk no longer correspond.  The incomplete blst_p{1,2}_add is confined to the enumerated site."""
+    R = "C16.4"
+    fb = ctx.fb
+    ALLOW_INCOMPLETE = {"<chia_bls::public_key::PublicKey as chia_bls::derive_keys::DerivableKey>::derive_unhardened":
+                        "generator * nonce + self: mirrored on the secret side by scalar addition; equality has negligible probability"}
+    n = 0
+    bad = []
+    ops = 0
+    for p, f in fb.fns.items():
+        if not (p.startswith("chia_bls::") or "chia_bls::" in p.split(" as ")[0]):
+            continue
+        for c in f.e.get("calls", []):
+            d = (c.get("def") or "").split("::")[-1]
+            if d in ("blst_p1_add", "blst_p2_add", "blst_p1_add_affine", "blst_p2_add_affine"):
+                n += 1
+                if p not in ALLOW_INCOMPLETE:
+                    bad.append("%s calls %s" % (p, d))
+            if d in ("blst_p1_add_or_double", "blst_p2_add_or_double"):
+                n += 1
+                if "core::ops::arith::" in p or p.endswith("::aggregate"):
+                    ops += 1
+    ctx.ob(R, "complete-addition", not bad, "every operator-level group addition uses blst_p*_add_or_double; the incomplete formula appears only at the enumerated site",
+           found=bad or None)
+    ctx.floor(R, "operator impls using the complete addition", ops, 9)
+    ctx.floor(R, "blst addition call sites", n, 10)
